@@ -388,6 +388,14 @@ def rule_homo(F, R):
                     "rep[xy]{1,2}": (T.branch("rep", [T.branch("cat", lits("x", "y"))], lower=1, upper=2), "(?:%s%s){1,2}" % (H("x"), H("y"))),
                     "rep[alt[x,y]]{2,2}": (T.branch("rep", [T.branch("alt", lits("x", "y"))], lower=2, upper=2), "(?:%s|%s){2}" % (H("x"), H("y"))),
                 }
+                # every shape of bounds: lower 0..3 x upper open / equal / one more / three more
+                for lo_ in range(0, 4):
+                    for hi_ in (None, lo_, lo_ + 1, lo_ + 3):
+                        if hi_ == 0:
+                            continue
+                        nm = "rep[x]{%d,%s}" % (lo_, "" if hi_ is None else hi_)
+                        if nm not in cases:
+                            cases[nm] = (T.branch("rep", lits("x"), lower=lo_, upper=hi_), "(?:%s){%d,%s}" % (H("x"), lo_, "" if hi_ is None else hi_))
                 for name, (tok, ref) in cases.items():
                     for frag, em in fragment_for(F, g, sup, pos, tok):
                         inst = "%s/%s/sup=%s/pos=%s" % (name, g, sup, pos)
